@@ -124,6 +124,31 @@ def run(ctx):
         for mode, vseed in combos:
             torn = 6 if quick else (-1 if vseed == 0 else 16)
             scheds.append({"id": len(scheds), "mode": mode, "vseed": vseed, "torn": torn, "items": items})
+    # multi-crash schedules: a crash inside a rewrite (new MANIFEST-n created / partly / fully written, CURRENT not yet
+    # replaced), reopen, edits that shrink the version, a second rewrite, one more edit, reload.  Random TLC behaviours
+    # reach this shape too rarely, so it is generated directly over the same edit alphabet.
+    def E(t, a=0, f=0, x=0, b=False):
+        return {"t": t, "a": a, "f": f, "x": x, "b": b}
+    crash_points = [("rw_snap", 0), ("rw_ren", 0), ("rw_torn", 0), ("rw_snap", 3)]
+    for k in range(4 if quick else 24):
+        rng = ctx.rng
+        lv = rng.choice([0, 1])
+        grow = [[E("AddFile", lv, 1, rng.choice([1, 2])), E("AddFile", lv, 2, rng.choice([1, 2]))],
+                [E("Region", rng.choice([1, 2]), 0, 2), E("VHead", rng.choice([0, 1]), 1, 5, True)],
+                [E("Raft", 1, 0, 2), E("AddFile", 1 - lv, 1, 2)]]
+        shrink = [[E("DelFile", lv, 1), E("DelFile", lv, 2)], [E("RegionDel", 1, 0, 0, True), E("RegionDel", 2, 0, 0, True)],
+                  [E("DelFile", 1 - lv, 1), E("LogPtr", 0, 0, 1)]]
+        at, kk = crash_points[(k + ctx.seed) % len(crash_points)]
+        items = [{"op": "Edits", "edits": grow[0], "rw": False}, {"op": "Edits", "edits": grow[1], "rw": False},
+                 {"op": "Edits", "edits": grow[2], "rw": True}, {"op": "Crash", "at": at, "k": kk, "t": at == "rw_torn"},
+                 {"op": "Edits", "edits": shrink[0], "rw": False}, {"op": "Edits", "edits": shrink[1], "rw": False},
+                 {"op": "Edits", "edits": shrink[2], "rw": True},
+                 {"op": "Edits", "edits": [E("LogPtr", 0, 0, 2)], "rw": False}, {"op": "Reopen"},
+                 {"op": "Edits", "edits": [E("AddFile", lv, 1, 1)], "rw": k % 2 == 0},
+                 {"op": "Crash", "at": "rw_ren", "k": 0, "t": False},
+                 {"op": "Edits", "edits": [E("DelFile", lv, 1), E("Raft", 1, 0, 1)], "rw": True}, {"op": "Reopen"}]
+        scheds.append({"id": len(scheds), "mode": "sched", "vseed": 0 if k % 2 == 0 else ctx.seed * 1000 + 500 + k,
+                       "torn": 3 if quick else 12, "items": items, "directed": "multi-crash"})
     # fixed regression schedules (repaired defects stay in the schedule set)
     for rp in json.load(open(os.path.join(VERIF, "findings", "manifest_replays.json"))):
         for mode in ("1", "sched"):
